@@ -1944,6 +1944,15 @@ def elem_classes(it, fn, depth=0):
         scope = fn
         while scope is not None and it.id not in stores_of(scope) and it.id not in scope.params:
             scope = scope.parent
+        if scope is not None and it.id in scope.params and it.id not in stores_of(scope) and ("callidx", cfront.REPO) in _mods:
+            # a list handed to a helper: what every caller passes
+            for caller, call in _sites(scope):
+                a = bind_args(call, scope).get(it.id)
+                c = elem_classes(a, caller, depth + 2) if a is not None and caller is not scope else set()
+                if not c:
+                    return set()
+                out |= c
+            return out
         if scope is None or it.id in scope.params:
             return set()
         for s in stores_of(scope)[it.id]:
